@@ -92,15 +92,53 @@ class RecSpecs:
             return Val(rt, {(): d[0](*args)})
         f, keys, sorts = d
         hargs = []
+        fp = getattr(self, 'footprints', {}).get((sf.pkg, sf.name), {})
         for key in keys:
-            hargs.append(ev.st.heap.get(key, sorts[key], ev.st.alloc0))
-        term = f(*(args + hargs))
+            h = ev.st.heap.get(key, sorts[key], ev.st.alloc0)
+            if key in fp:
+                h = self.peel(h, [args[n] for n in fp[key]])
+            hargs.append(h)
+        term = self.apply_lifted(f, args, hargs)
         if not ev.quant and not getattr(ev, 'nounfold', False):
             sub = Ev(self.cx, ev.st, dict(env), sf.pkg, ev.old, sf.imports, None, False)
             sub.nounfold = True
             body = sub.ev(sf.body)
             ev.st.assume(term == body.term)
         return Val(rt, {(): term})
+
+    def apply_lifted(self, f, args, hargs, depth=0):
+        """f(args, heaps) with a conditional heap (the state after a join) taken out of the
+        application: f(.., If(c, A, B)) = If(c, f(.., A), f(.., B)); quantifier patterns over f then
+        match the facts known about A and about B"""
+        if depth < 4:
+            for n, h in enumerate(hargs):
+                if z3.is_app(h) and h.decl().kind() == z3.Z3_OP_ITE:
+                    a = list(hargs)
+                    b = list(hargs)
+                    a[n] = h.arg(1)
+                    b[n] = h.arg(2)
+                    return z3.If(h.arg(0), self.apply_lifted(f, args, a, depth + 1), self.apply_lifted(f, args, b, depth + 1))
+        return f(*(args + hargs))
+
+    def peel(self, h, bases, depth=0):
+        """the region term without the writes to rows other than those of `bases` (the function
+        applied reads only these rows, so its value is the same on both)"""
+        if depth > 60:
+            return h
+        if z3.is_store(h):
+            i = h.arg(1)
+            if all(self.cx.solver.provably_different(i, b) for b in bases):
+                return self.peel(h.arg(0), bases, depth + 1)
+            return h
+        if z3.is_app(h) and h.decl().kind() == z3.Z3_OP_ITE:
+            x = self.peel(h.arg(1), bases, depth + 1)
+            y = self.peel(h.arg(2), bases, depth + 1)
+            if x.eq(y):
+                return x
+            if x.eq(h.arg(1)) and y.eq(h.arg(2)):
+                return h
+            return z3.If(h.arg(0), x, y)
+        return h
 
     def define(self, ev, sf, env, rt, argsorts):
         """heap footprint and uninterpreted symbol of a recursive spec function (fuel-1 scheme:
@@ -140,11 +178,51 @@ class RecSpecs:
         sub = Ev(cx, hs, dict(fenv), sf.pkg, None, sf.imports, None, True)
         self.defs[k] = (lambda *a: z3.FreshConst(rsort, 'ph'), heap1.keys, heap1.sorts, True)
         try:
-            sub.ev(sf.body)
+            bodyv = sub.ev(sf.body)
         finally:
             del self.defs[k]
         keys = list(heap1.keys)
         sorts = dict(heap1.sorts)
+        # footprint: a region read only through rows whose base is a parameter leaf (the elements
+        # of a slice parameter) lets an application ignore writes to other allocations
+        self.footprints = getattr(self, 'footprints', {})
+        fp = {}
+        try:
+            bt = bodyv.term if isinstance(bodyv, Val) else None
+        except Exception:
+            bt = None
+        if bt is not None:
+            fidx = {c.get_id(): n for n, c in enumerate(formals)}
+            for key in keys:
+                R = heap1.r[key]
+                ok = True
+                used = set()
+                seen = set()
+                stack = [bt] + list(hs.assumptions)
+                while stack and ok:
+                    t = stack.pop()
+                    if t.get_id() in seen:
+                        continue
+                    seen.add(t.get_id())
+                    if z3.is_quantifier(t):
+                        stack.append(t.body())
+                        continue
+                    if not z3.is_app(t):
+                        continue
+                    if t.eq(R):
+                        ok = False
+                        break
+                    if z3.is_select(t) and t.arg(0).eq(R):
+                        b = t.arg(1)
+                        if b.get_id() in fidx:
+                            used.add(fidx[b.get_id()])
+                            continue
+                        ok = False
+                        break
+                    stack.extend(t.children())
+                if ok and used:
+                    fp[key] = sorted(used)
+        self.footprints[k] = fp
         f = ops.uf('spec_%s_%s' % (sf.pkg.rsplit('/', 1)[-1], sf.name),
                    *(list(argsorts) + [z3.ArraySort(I, sort_of(sorts[key])) for key in keys] + [rsort]))
         d = (f, keys, sorts)
